@@ -29,6 +29,7 @@ import (
 	"testing"
 	"time"
 
+	"github.com/lestrrat-go/jwx/v2/jwa"
 	"github.com/nuts-foundation/go-stoabs"
 	"github.com/nuts-foundation/nuts-node/crypto/hash"
 	"github.com/nuts-foundation/nuts-node/network/dag"
@@ -409,7 +410,7 @@ func phaseWorker(args []string) int {
 	notifiers := map[string]dag.Notifier{}
 	pendingFin := map[string]string{} // sub|ref|type -> "ret" | "rec": record the completion externally at that hook of the running attempt
 	finishExternally := func(sub string, h hash.SHA256Hash, typ, where string) {
-		led.Log("fin-ext %s %s %s %s", sub, h, typ, where)
+		led.Log("fin-ext %s %s %s %s", sub, h, nz(typ), where)
 		mu.Lock()
 		n := notifiers[sub]
 		mu.Unlock()
@@ -573,6 +574,16 @@ func phaseWorker(args []string) int {
 			if plan.Point == "wp-committed" && matchRef(ref) {
 				kill("wp-committed " + ref)
 			}
+		case "dag.notify.receiver":
+			sub, h, typ := a[0].(string), a[1].(hash.SHA256Hash), a[2].(string)
+			if i, ok := idxOf[h.String()]; ok {
+				mu.Lock()
+				n := attempts[sub+"|"+h.String()+"|"+typ]
+				mu.Unlock()
+				if _, ext, _ := decodeResult(sc.Scripts[sub+"|"+strconv.Itoa(i)+"|"+typ].at(n)); ext == "pre" {
+					finishExternally(sub, h, typ, "before-receiver-call")
+				}
+			}
 		case "dag.notify.returned":
 			sub, ref, typ := a[0].(string), a[1].(hash.SHA256Hash).String(), a[2].(string)
 			e := "nil"
@@ -582,7 +593,7 @@ func phaseWorker(args []string) int {
 					e = "fatal"
 				}
 			}
-			led.Log("ret %s %s %s %v %s", sub, ref, typ, a[3], e)
+			led.Log("ret %s %s %s %v %s", sub, ref, nz(typ), a[3], e)
 			if takePendingFin(sub, ref, typ, "ret") {
 				// the completion is recorded by another party after the receiver returned, before the notifier has recorded the outcome
 				finishExternally(sub, a[1].(hash.SHA256Hash), typ, "after-return")
@@ -592,7 +603,7 @@ func phaseWorker(args []string) int {
 			}
 		case "dag.notify.recorded":
 			sub, ref, typ := a[0].(string), a[1].(hash.SHA256Hash).String(), a[2].(string)
-			led.Log("recorded %s %s %s %d", sub, ref, typ, a[3].(int))
+			led.Log("recorded %s %s %s %d", sub, ref, nz(typ), a[3].(int))
 			if takePendingFin(sub, ref, typ, "rec") {
 				// ... after the failed attempt was recorded, before the next one (start of the back-off; clean-up of a failed event)
 				finishExternally(sub, a[1].(hash.SHA256Hash), typ, "after-record")
@@ -870,9 +881,17 @@ func init() {
 	if os.Getenv("C14_SHUTDOWN") == "1" {
 		crashPoints = append(crashPoints, "shutdown")
 	}
+	// "pfin-*" (the completion is recorded by another party after the notifier has read the pending event for an attempt and before it calls the
+	// receiver) is implemented but not enumerated: the notifier checks, then calls, so the receiver IS called after that completion - on any
+	// implementation that does not hold the store over the receiver call. C14_PFIN=1 adds it (every first external completion of a scenario).
+	if os.Getenv("C14_PFIN") == "1" {
+		finKinds = []string{"pfin-ok", "pfin-fail"}
+	}
 }
 
-func genScenario(rnd *rand.Rand, seed int64, idx int, maxTx int) *scenario {
+// genScenario: rnd draws the history, subscribers and receiver scripts; rnd2 (a separate stream) draws the offers that must be refused, the
+// repeated offers and the completions recorded by another party that are woven into it.
+func genScenario(rnd, rnd2 *rand.Rand, seed int64, idx int, maxTx int) *scenario {
 	sc := &scenario{Index: idx, Scripts: map[string]script{}, Continue: rnd.Intn(2) == 0}
 	n := 5 + rnd.Intn(maxTx-4)
 	key := dagx.NewKey("")
@@ -930,7 +949,7 @@ func genScenario(rnd *rand.Rand, seed int64, idx int, maxTx int) *scenario {
 	}
 	// steps: adds in order, a WritePayload for every late payload at a later position, sometimes a second WritePayload
 	for i := range sc.Txs {
-		sc.Steps = append(sc.Steps, step{"add", i})
+		sc.Steps = append(sc.Steps, step{Op: "add", Tx: i})
 	}
 	insertAfterAdd := func(s step) {
 		pos := 0
@@ -944,7 +963,7 @@ func genScenario(rnd *rand.Rand, seed int64, idx int, maxTx int) *scenario {
 	}
 	for i, t := range sc.Txs {
 		if t.Mode == "late" {
-			insertAfterAdd(step{"wp", i})
+			insertAfterAdd(step{Op: "wp", Tx: i})
 		}
 	}
 	if rnd.Intn(3) == 0 {
@@ -955,7 +974,7 @@ func genScenario(rnd *rand.Rand, seed int64, idx int, maxTx int) *scenario {
 			}
 		}
 		if len(cands) > 0 {
-			insertAfterAdd(step{"rewp", cands[rnd.Intn(len(cands))]})
+			insertAfterAdd(step{Op: "rewp", Tx: cands[rnd.Intn(len(cands))]})
 		}
 	}
 	// subscribers as production registers them (+ a persistent transaction-event log, a non-persistent one and, in a quarter
@@ -1034,7 +1053,195 @@ func genScenario(rnd *rand.Rand, seed int64, idx int, maxTx int) *scenario {
 	}
 	// fixed target: the DID document of tx 1 fails three times at the VDR subscriber before it is processed
 	sc.Scripts["vdr|1|payload"] = script{Seq: [][]string{{"fail", "fail", "fail"}, {"incomplete", "fail", "incomplete"}, {"fail", "incomplete", "fail", "fail"}}[rnd.Intn(3)]}
+	weave(sc, rnd2, key, built, now, seed, idx)
 	return sc
+}
+
+// completions recorded by another party relative to a running delivery attempt x what the receiver returns for that attempt
+var finKinds = []string{"fin-fail", "rfin-fatal", "bfin-incomplete", "fin-fatal", "rfin-fail", "bfin-fail", "fin-incomplete", "rfin-incomplete", "bfin-fatal", "fin-ok", "fin-fatalw", "rfin-ok"}
+
+// offers of an admissible transaction that cannot succeed (it is admitted by its regular add step afterwards)
+var rejLaterKinds = []string{"prev-later", "payload-mismatch", "ctx-cancel", "store-fault", "wp-store-fault"}
+
+// weave adds to a generated history: transactions the DAG must refuse (second root, unknown prev, signature by another key, wrong lamport clock),
+// offers of admissible transactions that cannot succeed (before a prev, with other payload bytes, with the caller's context ending or a store
+// fault inside the admission write), repeated offers of admitted transactions, and completions recorded by another party during / right after /
+// between delivery attempts.
+func weave(sc *scenario, rnd *rand.Rand, key *dagx.Key, built []dag.Transaction, now time.Time, seed int64, idx int) {
+	n := len(sc.Txs)
+	pos := func(op string, tx int) int {
+		for i, st := range sc.Steps {
+			if st.Op == op && st.Tx == tx {
+				return i
+			}
+		}
+		return -1
+	}
+	// insert s at a random position in [lo, hi] (positions of the present step list; hi < 0: its end)
+	insert := func(s step, lo, hi int) {
+		if hi < 0 || hi > len(sc.Steps) {
+			hi = len(sc.Steps)
+		}
+		if lo > hi {
+			lo = hi
+		}
+		p := lo + rnd.Intn(hi-lo+1)
+		sc.Steps = append(sc.Steps[:p], append([]step{s}, sc.Steps[p:]...)...)
+	}
+	refIdx := map[string]int{}
+	for i, t := range built {
+		refIdx[t.Ref().String()] = i
+	}
+	maxPrev := func(i int) int {
+		m := -1
+		for _, p := range built[i].Previous() {
+			if j, ok := refIdx[p.String()]; ok && j > m {
+				m = j
+			}
+		}
+		return m
+	}
+	payload := func(k int) []byte { return dagx.Payload(seed*100000+int64(idx), 1000+k) }
+	ptype := func() string { return []string{typeDID, typeVC}[rnd.Intn(2)] }
+	addRej := func(kind string, tx dag.Transaction, pl []byte, pt string, lo int) {
+		sc.Rej = append(sc.Rej, rejSpec{Kind: kind, Data: string(tx.Data()), Ref: tx.Ref().String(), PType: pt, Payload: pl})
+		insert(step{Op: "rej", Tx: len(sc.Rej) - 1, Kind: kind}, lo, -1)
+	}
+
+	// (1) a second root transaction, from this node's key or from a stranger (a peer that was bootstrapped on another network), mostly with its payload
+	{
+		k, pt, pl := key, ptype(), payload(0)
+		if rnd.Intn(2) == 0 {
+			k = dagx.NewKey("")
+		}
+		tx := dagx.NewTx(k, true, pl, pt, now.Add(1000*time.Second), nil)
+		if rnd.Intn(4) == 0 {
+			pl = nil
+		}
+		addRej("second-root", tx, pl, pt, pos("add", 0)+1)
+	}
+	// (2) one or two other inadmissible transactions, offered with their payload
+	kinds := []string{"unknown-prev", "bad-signature", "wrong-lc"}
+	first := (idx + rnd.Intn(2)) % 3
+	for c := 0; c < 1+rnd.Intn(2); c++ {
+		kind := kinds[(first+c)%3]
+		j := rnd.Intn(n)
+		pt, pl := ptype(), payload(1+c)
+		var tx dag.Transaction
+		switch kind {
+		case "unknown-prev":
+			// refers to a transaction that is never offered, alone or next to a known one
+			ghost := dagx.NewTx(key, true, payload(10+c), typeOther, now.Add(1100*time.Second), nil, built[j])
+			prevs := []dag.Transaction{ghost}
+			if rnd.Intn(2) == 0 {
+				prevs = []dag.Transaction{built[j], ghost}
+			}
+			tx = dagx.NewTx(key, true, pl, pt, now.Add(1101*time.Second), nil, prevs...)
+		case "bad-signature":
+			// announces the key of this node, is signed by another one
+			forged := &dagx.Key{Priv: dagx.NewKey("").Priv, Pub: key.Pub}
+			tx = dagx.NewTx(forged, true, pl, pt, now.Add(1102*time.Second), nil, built[j])
+		case "wrong-lc":
+			h := dagx.Headers(pt, []hash.SHA256Hash{built[j].Ref()}, built[j].Clock()+2+uint32(rnd.Intn(3)), now.Add(1103*time.Second), nil)
+			h["jwk"] = key.Pub
+			data, err := dagx.SignRaw(h, []byte(hash.SHA256Sum(pl).String()), jwa.ES256, key.Priv)
+			if err != nil {
+				panic(err)
+			}
+			if tx, err = dag.ParseTransaction(data); err != nil {
+				panic(fmt.Sprintf("generated transaction does not parse: %v", err))
+			}
+		}
+		// after its known prev was admitted, so that the refusal is about what the kind says
+		addRej(kind, tx, pl, pt, pos("add", j)+1)
+	}
+	// (3) two offers of admissible transactions that cannot succeed, before their regular add step (transaction 1 stays the undisturbed crash target)
+	firstLater := (idx + rnd.Intn(2)) % len(rejLaterKinds)
+	for c := 0; c < 2; c++ {
+		kind := rejLaterKinds[(firstLater+c*(1+rnd.Intn(len(rejLaterKinds)-1)))%len(rejLaterKinds)]
+		var cands []int
+		for i := 2; i < n; i++ {
+			t := sc.Txs[i]
+			switch kind {
+			case "prev-later":
+				if maxPrev(i) >= 1 {
+					cands = append(cands, i)
+				}
+			case "payload-mismatch":
+				if t.Mode == "with" {
+					cands = append(cands, i)
+				}
+			case "wp-store-fault":
+				if t.Mode == "late" && pos("wp", i) >= 0 {
+					cands = append(cands, i)
+				}
+			default:
+				cands = append(cands, i)
+			}
+		}
+		if len(cands) == 0 {
+			continue
+		}
+		i := cands[rnd.Intn(len(cands))]
+		switch kind {
+		case "prev-later":
+			insert(step{Op: "rej", Tx: i, Kind: kind}, pos("add", 0)+1, pos("add", maxPrev(i)))
+		case "wp-store-fault":
+			insert(step{Op: "rej", Tx: i, Kind: kind, N: rnd.Intn(2)}, pos("add", i)+1, pos("wp", i))
+		case "store-fault":
+			insert(step{Op: "rej", Tx: i, Kind: kind, N: rnd.Intn(4)}, pos("add", maxPrev(i))+1, pos("add", i))
+		default:
+			insert(step{Op: "rej", Tx: i, Kind: kind}, pos("add", maxPrev(i))+1, pos("add", i))
+		}
+	}
+	// (4) admitted transactions are offered again (they arrive from more than one peer)
+	for c := 0; c < 1+rnd.Intn(2); c++ {
+		i := rnd.Intn(n)
+		insert(step{Op: "dup", Tx: i}, pos("add", i)+1, -1)
+	}
+	// (5) completions recorded by another party (v2 handleTransactionPayload finishing the private-transaction job, CleanupSubscriberEvents):
+	// the private receiver that writes the payload itself ...
+	for i, t := range sc.Txs {
+		k := "private|" + strconv.Itoa(i) + "|" + dag.TransactionEventType
+		if sp, ok := sc.Scripts[k]; ok && t.Private && t.Mode == "recv" && len(sp.Seq) > 0 && sp.Seq[len(sp.Seq)-1] == "wp-fin" {
+			sp.Seq = append([]string{}, sp.Seq...)
+			sp.Seq[len(sp.Seq)-1] = []string{"wp-fin", "wp-fin-fail", "wp-fin-fatal"}[rnd.Intn(3)]
+			sc.Scripts[k] = sp
+		}
+	}
+	// ... and two or three events of other subscribers (not those of transaction 1, not the scripted private receivers, not the subscriber without type filter)
+	type pair struct {
+		key string
+	}
+	var cands []pair
+	for _, s := range sc.Subs {
+		if !s.Persistent || s.Filter == "any" {
+			continue
+		}
+		for i := 2; i < n; i++ {
+			t := &sc.Txs[i]
+			for _, typ := range []string{dag.TransactionEventType, dag.PayloadEventType} {
+				if !selects(s.Filter, t, typ) || typ == dag.PayloadEventType && t.Mode == "never" {
+					continue
+				}
+				if s.Name == "private" && (t.Mode == "late" || t.Mode == "recv") {
+					continue
+				}
+				cands = append(cands, pair{s.Name + "|" + strconv.Itoa(i) + "|" + typ})
+			}
+		}
+	}
+	for c := 0; c < 2+rnd.Intn(2) && len(cands) > 0; c++ {
+		j := rnd.Intn(len(cands))
+		k := cands[j].key
+		cands = append(cands[:j], cands[j+1:]...)
+		kind := finKinds[rnd.Intn(len(finKinds))]
+		if c == 0 {
+			kind = finKinds[idx%len(finKinds)]
+		}
+		lead := [][]string{nil, {"fail"}, {"incomplete"}, {"fail", "incomplete"}}[rnd.Intn(4)]
+		sc.Scripts[k] = script{Seq: append(append([]string{}, lead...), kind)}
+	}
 }
 
 // eventuallyOK: the receiver reports completion within one process (no fatal error on the way, not failing for ever).
@@ -1232,6 +1439,13 @@ func runCase(sc *scenario, name string) *caseResult {
 			end = "broken"
 			res.broken = fmt.Sprintf("phase %d exit %d: %s", p, wr.ExitCode, tail(wr.Output))
 		}
+		if tear := os.Getenv("C14_TEAR"); tear != "" && end == "killed" {
+			// debugging aid: a write that the SIGKILL cut short at the end of the ledger (happens for real when a line straddles a page boundary of the file)
+			if f, err := os.OpenFile(ledgerPath(dir, p), os.O_APPEND|os.O_WRONLY, 0o644); err == nil {
+				_, _ = f.WriteString(tear)
+				_ = f.Close()
+			}
+		}
 		lns, dropped := readLedgerLines(ledgerPath(dir, p))
 		res.dropped += dropped
 		for i, f := range lns {
@@ -1283,11 +1497,37 @@ type recv struct {
 	inRun                        bool // made by Notifier.Run (between run-begin and run-done of the subscriber)
 }
 
-func isOK(result string) bool {
-	return result == "ok" || result == "slow-ok" || result == "wp-ok" || result == "wp-fin"
+// decodeResult splits a scripted receiver result: wp = the receiver writes the payload itself first; fin = the completion of the event is
+// recorded by another party ("in": while the receiver is busy, "ret": after it returned and before the notifier recorded the outcome,
+// "rec": after the outcome was recorded, before the next attempt); base = what the receiver returns.
+func decodeResult(res string) (wp bool, fin string, base string) {
+	switch res {
+	case "wp-ok":
+		return true, "", "ok"
+	case "wp-fin":
+		return true, "in", "incomplete"
+	}
+	if strings.HasPrefix(res, "wp-fin-") {
+		return true, "in", res[len("wp-fin-"):]
+	}
+	for _, p := range [][2]string{{"fin-", "in"}, {"rfin-", "ret"}, {"bfin-", "rec"}, {"pfin-", "pre"}} {
+		if strings.HasPrefix(res, p[0]) {
+			return false, p[1], res[len(p[0]):]
+		}
+	}
+	return false, "", res
 }
+
+// isOK: the event is completed with this call (the receiver reports completion, or the completion is recorded by another party during/right after it).
+func isOK(result string) bool {
+	_, fin, base := decodeResult(result)
+	return fin != "" || base == "ok" || base == "slow-ok"
+}
+
+// isFatal: the receiver returns a fatal error to the notifier.
 func isFatal(result string) bool {
-	return result == "fatal" || result == "fatalw"
+	_, _, base := decodeResult(result)
+	return base == "fatal" || base == "fatalw"
 }
 
 func evaluate(r *ev.Run, c *caseResult) {
@@ -1295,6 +1535,10 @@ func evaluate(r *ev.Run, c *caseResult) {
 	refIdx := map[string]int{}
 	for i, t := range sc.Txs {
 		refIdx[t.Ref] = i
+	}
+	mustRefuse := map[string]string{} // ref -> kind, transactions that are inadmissible by construction
+	for _, t := range sc.Rej {
+		mustRefuse[t.Ref] = t.Kind
 	}
 	payloadCount := map[string]int{}
 	for _, t := range sc.Txs {
@@ -1331,6 +1575,16 @@ func evaluate(r *ev.Run, c *caseResult) {
 			}
 			w["final_shelf_entries"] = sh
 		}
+		if k, ok := mustRefuse[ref]; ok {
+			w["tx"] = map[string]any{"ref": ref, "must_be_refused_because": k, "in_dag": fin.dag[ref]}
+		}
+		var steps []string
+		for i, st := range sc.Steps {
+			if st.Op == "rej" || st.Op == "dup" {
+				steps = append(steps, fmt.Sprintf("%d:%s/%s tx=%d n=%d", i, st.Op, st.Kind, st.Tx, st.N))
+			}
+		}
+		w["refused_and_repeated_offers"] = steps
 		return w
 	}
 	viol := func(class, what, ref, sub string) {
@@ -1359,10 +1613,53 @@ func evaluate(r *ev.Run, c *caseResult) {
 	inRun := ""
 	runDoneSeq := map[string]int{} // phase|sub -> ledger position of run-done
 	var order []string             // keys in order of first appearance
+	// offers that must not lead to admission: they do not count as admission attempts. Those that are refused because of an injected fault
+	// (not because of what is offered) count as regular attempts when the fault did not fire or the process died before saying so.
+	faultKind := func(k string) bool { return k == "ctx-cancel" || k == "store-fault" || k == "wp-store-fault" }
+	var openRej *line
+	foldRej := func(b line) {
+		if b.f[3] == "wp-store-fault" {
+			wpBegins[b.f[1]] = append(wpBegins[b.f[1]], line{b.phase, b.seq, []string{"wp-begin", b.f[1], "rej"}})
+			return
+		}
+		addBegins[b.f[1]] = append(addBegins[b.f[1]], line{b.phase, b.seq, []string{"add-begin", b.f[1], b.f[2], b.f[4]}})
+	}
+	closeRej := func() {
+		// the process died inside the offer
+		if openRej != nil && faultKind(openRej.f[3]) {
+			foldRej(*openRej)
+		}
+		openRej = nil
+	}
 	for _, l := range c.lines {
 		f := l.f
+		if l.phase < 0 || l.phase >= len(phases) {
+			continue
+		}
 		ph := phases[l.phase]
 		switch f[0] {
+		case "rej-begin":
+			closeRej()
+			cp := l
+			openRej = &cp
+			r.Count("offers_that_must_be_refused", 1)
+			r.Distinct("kinds_of_offers_that_must_be_refused", f[3])
+		case "rej-end":
+			if openRej != nil && openRej.f[1] == f[1] && openRej.phase == l.phase {
+				switch {
+				case faultKind(openRej.f[3]) && f[3] != "true":
+					r.Count("planned_faults_that_did_not_fire", 1)
+					foldRej(*openRej)
+				case f[2] == "nil":
+					r.Count("offers_that_must_be_refused_answered_without_error", 1)
+				}
+				openRej = nil
+			}
+		case "dup-begin":
+			r.Count("repeated_offers_of_admitted_transactions", 1)
+		case "fin-ext":
+			r.Count("completions_recorded_by_another_party", 1)
+			r.Distinct("positions_of_completions_recorded_by_another_party", f[4])
 		case "start-dag":
 			ph.startDag[f[1]] = true
 			if f[2] == "true" {
@@ -1409,6 +1706,15 @@ func evaluate(r *ev.Run, c *caseResult) {
 			addBegins[f[1]] = append(addBegins[f[1]], l)
 		case "phase":
 			inRun = ""
+			closeRej()
+		}
+	}
+	closeRej()
+	for _, m := range fin.shelf {
+		for ref := range m {
+			if !fin.dag[ref] {
+				r.Count("queue_entries_at_end_of_transactions_not_in_dag", 1)
+			}
 		}
 	}
 	before := func(a line, phase, seq int) bool { return a.phase < phase || a.phase == phase && a.seq < seq }
@@ -1492,9 +1798,15 @@ func evaluate(r *ev.Run, c *caseResult) {
 					admitted = true
 				}
 			}
+			if _, ext, _ := decodeResult(d.result); ext != "" {
+				r.Distinct("completion_by_another_party_x_receiver_result", d.result)
+			}
 			if !admitted || !fin.dag[ref] {
-				viol("delivered-not-admitted/transaction", fmt.Sprintf("subscriber %s received a %s event for %s, which %s", sub, typ, ref,
-					map[bool]string{true: "is not in the DAG at the end", false: "had not been offered to the DAG in that process and was not in it at start"}[admitted]), ref, sub)
+				why := map[bool]string{true: "is not in the DAG at the end", false: "had not been offered to the DAG in a way that can succeed in that process before, and was not in it at start"}[admitted]
+				if k, ok := mustRefuse[ref]; ok {
+					why = "cannot be admitted (" + k + ")"
+				}
+				viol("delivered-not-admitted/transaction", fmt.Sprintf("subscriber %s received a %s event for %s, which %s", sub, typ, ref, why), ref, sub)
 				break
 			}
 			if typ == dag.PayloadEventType {
@@ -1778,13 +2090,20 @@ func TestCheck(t *testing.T) {
 	r.SetRule("cases = seeded scenario (5-14 transactions, thorough up to 30: public/private, DID/VC/other payloads, payload with the Add, written later, written by the private receiver, never, " +
 		"written twice; tx 3 and some other late payloads repeat the payload bytes of an earlier transaction; 6-7 subscribers with scripted receivers) x every crash point of {none, inside the admission write, after commit before notify, inside/after the WritePayload write, " +
 		"receiver returned true before completion marking, receiver returned failure before recording, failure recorded, during back-off, after completion marking} " +
-		"(+ per scenario one double crash: second SIGKILL during the start-up replay). Each case = 2-3 worker processes on one data directory; the oracle runs over the merged ledgers and the final store. " +
+		"(+ per scenario one double crash: second SIGKILL during the start-up replay). Woven into every history (separate seeded stream): offers that must not lead to admission - a second root, " +
+		"a transaction with an unknown prev / signed by another key than announced / with a wrong lamport clock (each with its payload), and admissible transactions offered before a prev, with other " +
+		"payload bytes, with the caller's context ending or the n-th store operation / the commit failing inside the admission (or WritePayload) write, which are admitted by their regular step afterwards -, " +
+		"repeated offers of admitted transactions, and completions recorded by another party (Notifier.Finished as v2 handleTransactionPayload / CleanupSubscriberEvents call it) while the receiver is busy, " +
+		"after it returned before the outcome is recorded, or after the outcome was recorded, combined with every receiver outcome (ok, failure, incomplete, fatal). " +
+		"Each case = 2-3 worker processes on one data directory; the oracle runs over the merged ledgers and the final store. " +
 		"A case is non-trivial when its crash point was reached, the final DAG is not empty and persistent subscribers received deliveries; distinct by (crash points, crash target, scenario).")
 	r.Require(r.Pick(100, 800), r.Pick(60, 500))
 	r.Assume("bbolt file store with sync writes; page-cache durability (SIGKILL, not power loss)")
 	r.Assume(fmt.Sprintf("retry budget = %d attempts per event (dag.maxRetries); an event counts as failed for good when its persisted retry counter reached the budget or its last delivery reported a fatal error", retryBudget))
 	r.Assume("a process is quiescent when no goroutine has a frame inside dag.(*notifier) (stack dump); wall-clock only bounds the wait for that (-> inconclusive)")
 	r.Assume("receiver behaviour is a function of the attempt number per (subscriber, transaction, event type) counted over all processes of a case")
+	r.Assume("a completion recorded by another party is placed at hook points of the running attempt (inside the receiver, dag.notify.returned, dag.notify.recorded), i.e. in the attempt's own goroutine: the position relative to the attempt is logical, not timed. The window between the notifier reading the pending event and calling the receiver is not used (a call that follows a completion recorded there is inherent to check-then-call)")
+	r.Assume("ledger lines are written before the action they announce; a line cut short by the SIGKILL (no line end / wrong shape) counts as not written")
 
 	nScen := r.Pick(36, 280)
 	maxTx := r.Pick(14, 30)
@@ -1796,7 +2115,7 @@ func TestCheck(t *testing.T) {
 	only := os.Getenv("C14_ONLY") // debugging aid: run the cases whose name contains this
 	for i := 0; i < nScen; i++ {
 		rnd := r.Rand("scenario" + strconv.Itoa(i))
-		base := genScenario(rnd, r.Seed(), i, maxTx)
+		base := genScenario(rnd, r.Rand("weave"+strconv.Itoa(i)), r.Seed(), i, maxTx)
 		for _, pt := range crashPoints {
 			sc := *base
 			sc.Phases = []crashPlan{planFor(base, pt, rnd), {Point: "", Tx: -1}}
@@ -1837,6 +2156,7 @@ func TestCheck(t *testing.T) {
 		sc := c.sc
 		r.Count("worker_processes", len(c.phaseEnd))
 		r.Count("restarts", max(len(c.phaseEnd)-1, 0))
+		r.Count("ledger_lines_cut_short_by_a_kill_and_ignored", c.dropped)
 		for _, e := range c.phaseEnd {
 			r.Count("phase_end_"+e, 1)
 		}
@@ -1892,7 +2212,7 @@ func TestCheck(t *testing.T) {
 		r.Case(fpr, c.reached && !inconclusive && len(c.fin.dag) > 0 && persistentDeliveries > 0)
 		r.Distinct("crash_point_sequences", c.points)
 		r.Distinct("crash_point_x_target_behaviour", c.points+"|"+tgt.Sub+"|"+tgt.Note)
-		r.Sample(map[string]any{"case": c.name, "transactions": len(sc.Txs), "steps": len(sc.Steps), "subscribers": len(sc.Subs), "crash_plans": sc.Phases,
+		r.Sample(map[string]any{"case": c.name, "transactions": len(sc.Txs), "transactions_that_must_be_refused": len(sc.Rej), "steps": len(sc.Steps), "subscribers": len(sc.Subs), "crash_plans": sc.Phases,
 			"phase_ends": c.phaseEnd, "continue_after_restart": sc.Continue, "ledger_lines": len(c.lines), "in_dag_at_end": len(c.fin.dag), "deliveries_to_persistent": persistentDeliveries})
 	}
 	r.Exhaustive(allReached)
